@@ -65,6 +65,27 @@ func renderTagged(raw json.RawMessage, sb *strings.Builder) {
 	}
 }
 
+// numTag is the tag of a number, BY VALUE: every spelling of the same number (1, 1.0, 1e0, 10e-1) gives the same tag.
+// An integer of magnitude below 2e9 is ["n", k]; every other value is ["x", canonical exact spelling] (see canonNum: sign,
+// significant digits, power of ten - no rounding); a literal outside the JSON number grammar is carried as written.
+func numTag(lit string) any {
+	c, nd, mag, ok := canonNum(lit)
+	if !ok {
+		return []any{"x", lit}
+	}
+	if c == "0" {
+		return []any{"n", 0}
+	}
+	// value = 0.DIGITS x 10^mag with nd significant digits: an integer exactly when mag >= nd
+	if mag >= nd && mag <= 10 {
+		digits := c[:strings.IndexByte(c, 'e')]
+		if i, err := strconv.Atoi(digits + strings.Repeat("0", mag-nd)); err == nil && i > -2000000000 && i < 2000000000 {
+			return []any{"n", i}
+		}
+	}
+	return []any{"x", c}
+}
+
 // tagged converts a generic JSON value (decoded with UseNumber) to the tagged form.
 func tagged(v any) any {
 	switch v := v.(type) {
@@ -75,15 +96,12 @@ func tagged(v any) any {
 	case string:
 		return []any{"s", v}
 	case json.Number:
-		if i, err := strconv.Atoi(string(v)); err == nil && i > -2000000000 && i < 2000000000 {
-			return []any{"n", i}
-		}
-		return []any{"x", string(v)}
+		return numTag(string(v))
 	case float64:
-		if v == math.Trunc(v) && math.Abs(v) < 2e9 {
-			return []any{"n", int(v)}
+		if math.IsNaN(v) || math.IsInf(v, 0) {
+			return []any{"x", strconv.FormatFloat(v, 'g', -1, 64)}
 		}
-		return []any{"x", strconv.FormatFloat(v, 'g', -1, 64)}
+		return numTag(strconv.FormatFloat(v, 'e', -1, 64))
 	case []any:
 		out := make([]any, len(v))
 		for i, e := range v {
